@@ -282,7 +282,12 @@ func c18PoolInterp(t *testing.T, c c18Case) kit.Verdict {
 			v.class("destroyed-aged-resource")
 			if !on {
 				v.failf("pool without maximum age destroyed resource %d", pe.ID)
-			} else if pe.Idle < maxAge {
+			} else if pe.Idle <= maxAge {
+				// "idle beyond their maximum age" is strict: a resource idle for
+				// exactly maxAge is not beyond it, and what is not beyond it is
+				// reused (the converse this rule asserts, see verif.json). Idle times
+				// are exact: both instants are virtual and no time passes inside
+				// Put / Get while they run.
 				// (fixed finding pool-maxage-overflow, /repo 198580a: lastUsed+maxAge
 				// used to overflow int64 for "never expire" values; regression
 				// replay /verif/replays/C18/pool-pool-maxage-overflow.json)
